@@ -221,6 +221,8 @@ def judge_writes(facts, b, only_blocks=None):
                 k = E[3]
                 if ctx.le(k, ("bin", "Sub", ("field", base, "cap"), ln)):
                     ok, how = True, "len + k under the guard k <= cap - len"
+                elif ctx.le(E, ("field", base, "cap")) or (k == ("const", 1) and ctx.lt(ln, ("field", base, "cap"))):
+                    ok, how = True, "len + k under the guard len + k <= cap"
                 elif self_field(k, "len") is not None:
                     ok, how = unsplit_guard(ctx, base, self_field(k, "len"))
             if not ok:
